@@ -32,11 +32,12 @@ def run(chk, tier, proof_ok):
     full = (not quick) or broken
     f1, st1 = kernels.acceptance_oracle(chk.seed, tier, full)
     f2, st2 = kernels.exact_kernel(chk.seed, tier, full)
+    f3, st3 = kernels.zero_likelihood_findings(chk.seed, tier, full)
     cov = chk.coverage
     cov.setdefault('correspondence', {})['scripted-step'] = dict(
         sstats, divergences=len(sdivs), real_code_exceptions=len(serrs))
     cov['search'] = {
-        'acceptance_oracle': st1, 'exact_kernel': st2, 'full': full,
+        'acceptance_oracle': st1, 'exact_kernel': st2, 'zero_likelihood': st3, 'full': full,
         'oracle': 'recorded acceptance_ratio vs min(1, exp(dlogp + beta*dlogl) * r) with dlogp/dlogl from a '
                   'second pure model instance and r from the constituents\' reported densities; accepted <=> '
                   'u <= ar; zero prior => ar = 0; rejected => record repeats; lattices: f_x P_xy = f_y P_yx '
@@ -56,7 +57,7 @@ def run(chk, tier, proof_ok):
     chk.assumptions += [
         'Generator.uniform() is uniform on [0,1) and numpy.exp is monotone (C01_accept_probability is about Lebesgue measure)',
         'the densities the proposals report are the law of their jumps: property C02 (C01 is proved for the reported ratio)']
-    _plumb.report(chk, proof_ok, sdivs + divs, serrs + errs, f1 + f2, suite='scripted-step+plumbing')
+    _plumb.report(chk, proof_ok, sdivs + divs, serrs + errs, f1 + f2 + f3, suite='scripted-step+plumbing')
 
 
 def replay(path):
